@@ -53,16 +53,18 @@ def const_ids(e, memo):
 _cid_memo = {}
 
 
-def expand(ob, extra_terms=(), relevant=False):
-    """quantifier-free hypothesis list and negated goal for an obligation (memoised per obligation)."""
-    key_ = ('expand', bool(relevant), tuple(t.get_id() for t in extra_terms), len(ob.hyps))
+def expand(ob, extra_terms=(), relevant=False, rounds=1):
+    """quantifier-free hypothesis list and negated goal for an obligation (memoised per obligation).
+    rounds=2: the universal facts are instantiated a second time at the index terms their first instances brought in (a 'sat'
+    answer of the instantiated problem is only as good as the instantiation is complete)"""
+    key_ = ('expand', bool(relevant), tuple(t.get_id() for t in extra_terms), len(ob.hyps), rounds)
     cache = ob.__dict__.setdefault('_expand_cache', {})
-    if key_ not in cache: cache[key_] = _expand(ob, extra_terms, relevant)
+    if key_ not in cache: cache[key_] = _expand(ob, extra_terms, relevant, rounds)
     h, g = cache[key_]
     return list(h), g
 
 
-def _expand(ob, extra_terms=(), relevant=False):
+def _expand(ob, extra_terms=(), relevant=False, rounds=1):
     """quantifier-free hypothesis list and negated goal for an obligation.
     relevant=True keeps only the hypotheses in the cone of influence of the goal (a weakening: sound for 'unsat')"""
     hyps = []; qs = []
@@ -104,11 +106,24 @@ def _expand(ob, extra_terms=(), relevant=False):
         uniq = []; ids = set()
         for t in terms:
             if t.get_id() not in ids: ids.add(t.get_id()); uniq.append(t)
+        inst = []
         for q in qs:
             if q.arity == 1:
-                for t in uniq: hyps.append(q.fn(t))
+                for t in uniq: inst.append(q.fn(t))
             else:
-                for tup in itertools.product(uniq[:12], repeat=q.arity): hyps.append(q.fn(*tup))
+                for tup in itertools.product(uniq[:12], repeat=q.arity): inst.append(q.fn(*tup))
+        hyps = hyps + inst
+        if rounds > 1:
+            more = [t for t in collect_index_terms(inst, limit=120) if t.get_id() not in ids][:60]
+            for t in more: ids.add(t.get_id())
+            for q in qs:
+                if q.arity == 1:
+                    for t in more: hyps.append(q.fn(t))
+                else:
+                    pool = (uniq[:8] + more[:8])
+                    for tup in itertools.product(pool, repeat=q.arity):
+                        if any(x.get_id() in set(m.get_id() for m in more[:8]) for x in tup): hyps.append(q.fn(*tup))
+        ob.__dict__['quantified'] = True
         if AXIOMATIZER is not None:
             hyps = hyps + AXIOMATIZER(hyps + [goal])
     elif AXIOMATIZER is not None and sk:
